@@ -24,7 +24,9 @@ class C07(E1Check):
 
     def op_list(self, cfg):
         ops = std_ops(self.alpha, cfg, self.tier)
-        extra = [("insert", "P7", None, False, "db"), ("insert", "P8", None, False, "db")]
+        extra = [("insert", "P7", None, False, "db"), ("insert", "P8", None, False, "db"),
+                 # getters as transitions: whatever an earlier call may have cached must not go stale
+                 ("getter", "get_field_values", "v", "m"), ("getter", "get_tag_keys", "n"), ("getter", "h.len", "m")]
         have = set(ops)
         return [o for o in extra if o not in have] + ops
 
